@@ -257,9 +257,22 @@ def check_program(case):
         if len(st) >= 2:
             out.sub()
             try:
+                def probe0(w):
+                    for args, kw in C[:4]:
+                        for boom in (False, True):
+                            a2 = tuple('boom' if (boom and i_ == 0) else v for i_, v in enumerate(args))
+                            k2 = {k_: ('boom' if (boom and not args and i_ == 0) else v) for i_, (k_, v) in enumerate(kw.items())}
+                            try:
+                                w(*a2, **k2)
+                            except Exception:
+                                pass
+                _use_layers = True
                 h = fr
+                layers = []          # every intermediate object of the stack is the caller's: x1 = d1(f), x2 = d2(x1), ...
                 for i in st[:-1]:
                     h = D[i][1](h)
+                    layers.append(h)
+                    _use_layers and probe0(h)          # every layer is USED by its owner before the next one is put around it (a cache has its dict by then)
                 chain_before = _chain(h)
 
                 def probe(w):
@@ -273,12 +286,17 @@ def check_program(case):
                             except Exception as e_:
                                 res_.append(('raise', type(e_).__name__))
                     return res_
-                before = probe(h)
-                D[st[-1]][1](h)
+                before = [(_chain(x), probe(x)) for x in layers]
+                g2 = D[st[-1]][1](h)
                 out.call()
-                if _chain(h) != chain_before or probe(h) != before:
-                    out.viol('wrapping-mutates-operand', '%s: after wrapping x = %s once more with %s, x itself has the chain %s (was %s) and answers %s (was %s)' % (
-                        label, '('.join(reversed(names[:-1])) + '(f' + ')' * (len(st) - 1), names[-1], _chain(h), chain_before, probe(h)[:4], before[:4]), outer=names[-1], n=len(st))
+                probe(g2)          # ... and USING the new wrapper (its fallbacks, its cache) must not show through the caller's objects either
+                for li, x in enumerate(layers):
+                    now = (_chain(x), probe(x))
+                    if now != before[li]:
+                        out.viol('wrapping-mutates-operand', '%s: x%d = %s; after g = %s(x%d) and calls of g, x%d itself has the chain %s (was %s) and answers %s (was %s)' % (
+                            label, li + 1, '('.join(reversed(names[:li + 1])) + '(f' + ')' * (li + 1), names[-1], len(layers), li + 1, now[0], before[li][0], now[1][:4], before[li][1][:4]),
+                            outer=names[-1], n=len(st), layer='operand' if li == len(layers) - 1 else 'inner', chain=now[0] != before[li][0])
+                        break
             except Exception as e:
                 out.viol('wrapping-raised', 're-wrapping check of %s raised %s: %s' % (sname, type(e).__name__, e), stack=names, again=True)
         # ---- results on every valid call
